@@ -244,6 +244,75 @@ static void check_case(const struct rimpl *im, int vects, int len, int pl, int c
 	g_reset();
 }
 
+/* very many vectors (32767, 32768, 65535, 65542: the counts where a 15- or 16-bit view of `vects` changes): all sources are one shared
+ * zero block except three real ones (first, middle, last), so the reference parity is cheap; generation must give P and Q, the checks
+ * must accept the consistent array and report one changed byte in the last source, in P and in Q */
+static void many_vectors(const struct rimpl *im)
+{
+	static const int Vs[] = { 32767, 32768, 65535, 65542 };
+	char key[256];
+	enum { L = 64 };
+	int npar = im->op == R_PQ_GEN || im->op == R_PQ_CHECK ? 2 : 1;
+	for (int vi = 0; vi < 4; vi++) {
+		int V = Vs[vi], nsrc = V - npar;
+		void **arr = g_alloc((size_t)V * sizeof(void *), G_END);
+		uint8_t *Z = place(L, im->align, 0), *real[3], *P = place(L, im->align, 0), *Q = place(L, im->align, 0), wp[L], wq[L];
+		int at[3] = { 0, nsrc / 2, nsrc - 1 };
+		memset(Z, 0, L);
+		for (int i = 0; i < nsrc; i++)
+			arr[i] = Z;
+		memset(wp, 0, L); memset(wq, 0, L);
+		for (int t = 0; t < 3; t++) {
+			real[t] = place(L, im->align, 0);
+			fill_xorshift(real[t], L, 500 + t + vi);
+			arr[at[t]] = real[t];
+			uint8_t g = 1; /* 2^at[t] */
+			for (int e = 0; e < at[t]; e++)
+				g = rgf_mul_slow(g, 2);
+			for (int j = 0; j < L; j++) {
+				wp[j] ^= real[t][j];
+				wq[j] ^= rgf_mul_slow(g, real[t][j]);
+			}
+		}
+		arr[nsrc] = P;
+		if (npar == 2)
+			arr[nsrc + 1] = Q;
+		int gen = im->op == R_XOR_GEN || im->op == R_PQ_GEN;
+		if (gen) {
+			memset(P, 0xAA, L); memset(Q, 0x55, L);
+		} else {
+			memcpy(P, wp, L); memcpy(Q, wq, L);
+		}
+		snprintf(key, sizeof key, "%s many-vectors vects=%d len=%d", im->name, V, L);
+		if (V_TRY()) {
+			int r = (int)PCALL(im->f, V, L, arr);
+			v_eval();
+			if (gen) {
+				if (r != 0 || memcmp(P, wp, L) || (npar == 2 && memcmp(Q, wq, L)))
+					v_violation(key, "ret=%d P %s Q %s", r, memcmp(P, wp, L) ? "WRONG" : "ok", npar == 2 && memcmp(Q, wq, L) ? "WRONG" : "ok");
+			} else {
+				if (r != 0)
+					v_violation(key, "returned %d on a parity-consistent array", r);
+				uint8_t *tgt[3] = { real[2], P, npar == 2 ? Q : P };
+				for (int t = 0; t < 3; t++) {
+					tgt[t][L / 2] ^= 0x10;
+					r = (int)PCALL(im->f, V, L, arr);
+					tgt[t][L / 2] ^= 0x10;
+					v_eval();
+					if (r == 0)
+						v_violation(key, "one changed byte in %s not reported", t == 0 ? "the last source" : t == 1 ? "P" : "Q");
+				}
+			}
+			V_END();
+		} else
+			v_violation(key, "%s", v_fault_desc());
+		if (g_check())
+			v_violation(key, "%s", g_last_damage());
+		g_reset();
+		v_count("many_vector_cases", 1);
+	}
+}
+
 /* below the documented minimum: must return non-zero without touching memory (pointer array and buffers unmapped) */
 static void below_min(const struct rimpl *im)
 {
@@ -416,6 +485,8 @@ int main(int argc, char **argv)
 		int mv = minv(im->op);
 		if (v_mine(unit++))
 			below_min(im);
+		if (v_mine(unit++))
+			many_vectors(im);
 		if (im->op == R_XOR_GEN || im->op == R_PQ_GEN) {
 			/* small vects: every length, three placements, dense data; impulses at every byte for len <= 256 */
 			for (int vects = mv; vects <= 6; vects++)
